@@ -441,7 +441,11 @@ func (c *Ctx) Fail(class string, input interface{}, format string, a ...interfac
 	if err != nil {
 		raw, _ = json.Marshal(fmt.Sprintf("%+v", input))
 	}
-	c.viol[class] = &Violation{Property: c.ID, Class: class, Message: fmt.Sprintf(format, a...), Input: raw, Count: 1}
+	msg := fmt.Sprintf(format, a...)
+	if len(msg) > 3000 { // size-ladder cases carry objects of thousands of letters; the replay file has the input
+		msg = msg[:2000] + fmt.Sprintf(" ...(%d bytes omitted)... ", len(msg)-2600) + msg[len(msg)-600:]
+	}
+	c.viol[class] = &Violation{Property: c.ID, Class: class, Message: msg, Input: raw, Count: 1}
 	c.violOrder = append(c.violOrder, class)
 }
 
@@ -629,6 +633,25 @@ func (c *Ctx) Finish() int {
 func J(v interface{}) string {
 	b, _ := json.Marshal(v)
 	return string(b)
+}
+
+// Ladder returns the size ladder lo..hi: every power of two in the range with its two neighbours
+// (2^k-1, 2^k, 2^k+1), ascending.  Small scopes cannot reach the constants code is tuned around (block
+// sizes, fast-path thresholds, pool size classes); those are powers of two almost without exception,
+// so the ladder is the boundary family for sizes in general.
+func Ladder(lo, hi int) []int {
+	var out []int
+	seen := map[int]bool{}
+	for p := 1; p-1 <= hi; p *= 2 {
+		for _, n := range []int{p - 1, p, p + 1} {
+			if n >= lo && n <= hi && !seen[n] {
+				seen[n] = true
+				out = append(out, n)
+			}
+		}
+	}
+	sort.Ints(out)
+	return out
 }
 
 // Strings enumerates all strings over alpha of length lo..hi in length-then-lexicographic order.
